@@ -153,6 +153,7 @@ def c03(tier, seed):
         ("bad", "badscale", 150, 4000, 10, []),
         ("infb", "infb", 100, 2000, 8, []),
         ("objscale", "objscale", 100, 2000, 8, []),
+        ("inverted", "inverted", 150, 3000, 8, []),
     ])
 
 
